@@ -6,3 +6,4 @@ pub mod drive;
 pub mod irdump;
 pub mod inv;
 pub mod c04gen;
+pub mod c01gen;
